@@ -18,7 +18,7 @@
 /*@unit {'name':'c12_process32', 'props':['C12','C05'], 'entry':'h_process', 'enforce':'process_utf_data', 'replace':['CODEC_get','Cmap_lookup','Face_findPseudo','Segment_appendSlot'],
          'defines':['ENC=32','REF_LENIENT_SURROGATES'], 'defines_quick':['ENC=32','REF_LENIENT_SURROGATES','MAXN=256'], 'min_loops':1, 'cost':40,
          'replay':'c12_make_seg', 'witness_defines':['WITNESS'], 'witness_vars':['w_n','w_u','w_nchars','w_enc'], 'claims':'same for UTF-32'}@*/
-/*@unit {'name':'c12_read_text', 'props':['C12','C05'], 'entry':'h_read_text', 'enforce':'Segment_read_text', 'replace':['process_utf_data_8','process_utf_data_16','process_utf_data_32','Segment_addFeatures'],
+/*@unit {'name':'c12_read_text', 'props':['C12','C05','C03'], 'entry':'h_read_text', 'enforce':'Segment_read_text', 'replace':['process_utf_data_8','process_utf_data_16','process_utf_data_32','Segment_addFeatures'],
          'defines':['ENC=8','READ_TEXT'],
          'claims':'Segment::read_text sets both the char-info count and the slot count of the segment to the number of characters process_utf_data consumed (one char-info per character actually consumed), for each of the three encodings'}@*/
 
